@@ -392,3 +392,171 @@ def asyncresult_callbacks_bounded(repo):
 
 
 BOUNDS["asyncresult_callbacks_bounded"] = ("rpyc/core/async_.py::AsyncResult.__call__", CALLBACKS_BOUND)
+
+
+# ---------------------------------------------------------------------------------------------------------------
+# BOUNDED companion of the registry's table contracts (never counted as proved): every HISTORY of commands inside the bound is
+# run on the real class (no sockets, a fake clock) next to a reference table written from the statement - after every step the
+# table, the notifications and every query answer must agree.  It exists because the proof reads the code: a table operation
+# rewritten with a construct outside the verifier's subset makes the proof stop (exit 3), and this run still reports a wrong
+# table with the history that produces it.
+# ---------------------------------------------------------------------------------------------------------------
+HISTORY_BOUND = ("every history of up to 6 steps over: 2 servers registering under 1 or 2 names (mixed case), either of them "
+                 "unregistering, the clock advancing by 40 / 70 s (pruning after 100 s), a query for either name")
+_HISTORY = r"""
+import sys, json, itertools, time
+sys.path.insert(0, sys.argv[1])
+from rpyc.utils import registry
+class Probe(registry.RegistryServer):
+    def __init__(self):
+        self.services = {}; self.pruning_timeout = 100.0; self.log = []
+        import logging; self.logger = logging.getLogger("probe"); self.logger.disabled = True
+    def on_service_removed(self, name, addrinfo): self.log.append(("removed", name, addrinfo))
+    def on_service_added(self, name, addrinfo): self.log.append(("added", name, addrinfo))
+clock = [0.0]
+real_time = registry.time.time
+registry.time.time = lambda: clock[0]
+A, B = ("10.0.0.1", 18861), ("10.0.0.2", 18862)
+STEPS = [("reg", A, ("foo",)), ("reg", A, ("Foo", "BAR")), ("reg", B, ("FOO",)), ("unreg", A), ("unreg", B),
+         ("tick", 40.0), ("tick", 70.0), ("query", "foo"), ("query", "Bar")]
+out, cases = [], 0
+def run(history):
+    p = Probe(); clock[0] = 1000.0
+    model, mlog = {}, []            # name -> {addr: last refresh}
+    for step in history:
+        if step[0] == "reg":
+            p.cmd_register(step[1][0], step[2], step[1][1])
+            for n in step[2]:
+                n = n.upper()
+                if step[1] not in model.setdefault(n, {}):
+                    mlog.append(("added", n, step[1]))
+                model[n][step[1]] = clock[0]
+        elif step[0] == "unreg":
+            p.cmd_unregister(step[1][0], step[1][1])
+            for n in sorted(model):
+                if step[1] in model[n]:
+                    del model[n][step[1]]; mlog.append(("removed", n, step[1]))
+            for n in [n for n in model if not model[n]]:
+                del model[n]
+        elif step[0] == "tick":
+            clock[0] += step[1]
+        else:
+            n = step[1].upper()
+            got = p.cmd_query("9.9.9.9", step[1])
+            stale = [a for a, t in model.get(n, {}).items() if t < clock[0] - 100.0]
+            for a in sorted(stale, key=lambda a: model[n][a]):
+                del model[n][a]; mlog.append(("removed", n, a))
+            if n in model and not model[n]:
+                del model[n]
+            live = model.get(n, {})
+            if set(got) != set(live) or len(got) != len(live) or any(live[a] > live[b] for a, b in zip(got, got[1:])):
+                return "query %r answered %r; live registrations with refresh times: %r" % (step[1], got, live)
+        if p.services != model:
+            return "after %r the table is %r, the statement's table is %r" % (step, p.services, model)
+        if sorted(p.log) != sorted(mlog) or len(p.log) != len(mlog):
+            return "after %r the notifications are %r, expected %r" % (step, p.log, mlog)
+    return None
+try:
+    for n in range(1, 7):
+        for history in itertools.product(range(len(STEPS)), repeat=n):
+            cases += 1
+            why = run([STEPS[i] for i in history])
+            if why and len(out) < 5:
+                out.append({"id": "bounded:registry-history:" + "-".join(map(str, history)), "ok": False,
+                            "detail": "history %r: %s" % ([STEPS[i] for i in history], why)})
+finally:
+    registry.time.time = real_time
+out.append({"id": "bounded:registry-history:all-cases", "ok": not out, "detail": "%d histories" % cases, "cases": cases})
+print(json.dumps(out))
+"""
+
+
+def registry_history_bounded(repo):
+    p = subprocess.run(["/venv/bin/python", "-c", _HISTORY, repo], capture_output=True, text=True, timeout=900)
+    if p.returncode != 0:
+        return [{"id": "bounded:registry-history", "ok": False, "detail": "bounded run crashed: " + (p.stderr or "")[-500:]}]
+    return json.loads(p.stdout.strip().splitlines()[-1])
+
+
+BOUNDS["registry_history_bounded"] = ("rpyc/utils/registry.py::RegistryServer (_add_service, _remove_service, cmd_register, cmd_unregister, cmd_query)", HISTORY_BOUND)
+
+
+# ---------------------------------------------------------------------------------------------------------------
+# BOUNDED stand-in (never counted as proved) for lib.get_methods - dict.update over class __dict__ proxies along the MRO, hasattr
+# and inspect.getdoc are outside the verifier's subset.  Which special methods a generated proxy class HAS decides whether
+# `len(p)`, `x in p`, `reversed(p)`, `p()` ... reach the target at all (C02): the list must name exactly the attributes whose
+# definition AS PYTHON RESOLVES IT (most derived class first; for a class object its own MRO before its metaclass's) is callable.
+# ---------------------------------------------------------------------------------------------------------------
+GET_METHODS_BOUND = ("class hierarchies of depth <= 3 (single chain and diamond), 3 attribute names (two special, one plain), each "
+                     "defined at each level as: absent / a function / None / a non-callable; instances and class objects "
+                     "(with a metaclass defining one of the names)")
+_GETMETHODS = r"""
+import sys, json, itertools, inspect
+sys.path.insert(0, sys.argv[1])
+from rpyc.lib import get_methods
+LOCAL = frozenset(["__class__", "__dict__", "__weakref__", "__doc__", "__module__"])
+def fn(tag):
+    def f(self, *a):
+        return tag
+    f.__doc__ = "doc of " + tag
+    return f
+KINDS = ("absent", "function", "none", "number")
+NAMES = ("__len__", "__contains__", "plain")
+def body(level, choice):
+    d = {}
+    for name, kind in zip(NAMES, choice):
+        if kind == "function": d[name] = fn("%s@%s" % (name, level))
+        elif kind == "none": d[name] = None
+        elif kind == "number": d[name] = 7
+    return d
+out, cases = [], 0
+def check(obj, label):
+    got = dict(get_methods(LOCAL, obj))
+    if isinstance(obj, type):
+        order = list(obj.__mro__) + list(type(obj).__mro__)
+    else:
+        order = list(type(obj).__mro__)
+    seen = {}
+    for cls in order:
+        for name, val in vars(cls).items():
+            seen.setdefault(name, val)           # the first definition in resolution order is the one Python uses
+    want = {n: inspect.getdoc(v) for n, v in seen.items() if n not in LOCAL and hasattr(v, "__call__")}
+    if got != want:
+        diff = sorted(set(got) ^ set(want)) or sorted(n for n in got if got[n] != want[n])
+        return "%s: get_methods and Python's own resolution differ on %r (listed: %r, resolved callable: %r)" % (
+            label, diff[:4], sorted(n for n in diff if n in got), sorted(n for n in diff if n in want))
+    return None
+choices = list(itertools.product(KINDS, repeat=len(NAMES)))
+sample = [c for i, c in enumerate(choices) if i % 3 == 0]
+for ca in choices:
+    for cb in sample:
+        for shape in ("chain", "diamond"):
+            cases += 1
+            A = type("A", (object,), body("A", ca))
+            B = type("B", (A,), body("B", cb))
+            if shape == "chain":
+                C = type("C", (B,), {})
+            else:
+                B2 = type("B2", (A,), body("B2", ca[::-1]))
+                C = type("C", (B, B2), {})
+            why = check(C(), "instance of %s %r/%r" % (shape, ca, cb))
+            if why is None:
+                M = type("M", (type,), {"__len__": fn("meta-len"), "plain": None})
+                K = M("K", (B,), body("K", cb[::-1]))
+                why = check(K, "class object %r/%r" % (ca, cb))
+            if why and len(out) < 5:
+                out.append({"id": "bounded:get_methods:%s:%s:%s" % (shape, "".join(k[0] for k in ca), "".join(k[0] for k in cb)),
+                            "ok": False, "detail": why})
+out.append({"id": "bounded:get_methods:all-cases", "ok": not out, "detail": "%d hierarchies" % cases, "cases": cases})
+print(json.dumps(out))
+"""
+
+
+def get_methods_bounded(repo):
+    p = subprocess.run(["/venv/bin/python", "-c", _GETMETHODS, repo], capture_output=True, text=True, timeout=600)
+    if p.returncode != 0:
+        return [{"id": "bounded:get_methods", "ok": False, "detail": "bounded run crashed: " + (p.stderr or "")[-500:]}]
+    return json.loads(p.stdout.strip().splitlines()[-1])
+
+
+BOUNDS["get_methods_bounded"] = ("rpyc/lib/__init__.py::get_methods", GET_METHODS_BOUND)
